@@ -140,7 +140,17 @@ def make_ops(fam, vec=None):
 
     ops.append(("other_entry_points_used_in_between", elsewhere))
     ops.append(("as_json_then_mutate(sort=False)", lambda o, f: json_mutate(o, f, False, False)))
-    ops.append(("as_json_then_mutate(sort=True,minimal=True)", lambda o, f: json_mutate(o, f, True, True)))
+
+    def json_mutate_all(o, f):
+        """Every option combination: all four dictionaries are obtained first and then vandalised (a
+        dictionary that is handed out by reference for one combination only shows here)."""
+        ds = [o.as_json(sort=s, minimal=m) for s in (False, True) for m in (False, True)]
+        before = [frozen(d) for d in ds]
+        for d in ds:
+            mutate(d)
+        return before
+
+    ops.append(("as_json_then_mutate(every option combination)", json_mutate_all))
     return ops
 
 
